@@ -134,6 +134,24 @@ func New(e *sched.Exec, o Options) *World {
 	return w
 }
 
+// CloseGuarded is the clean-up of a scheduled world. It must never hang: a
+// Subscriber.Close that does not return (a Close of the explored part is stuck,
+// a lock was left held) is recorded in Exec.CleanupHung, and the periodic
+// sweeper of the subscriber's own address book is then stopped directly, since
+// while a ticker runs in the bubble virtual time never rests and the bubble can
+// never report the goroutines that are left.
+func (w *World) CloseGuarded() {
+	e := w.E
+	if !e.Guarded("Subscriber.Close in the clean-up", func() { w.Sub.Close() }) {
+		e.Guarded("stopping the subscriber's address book", func() {
+			if ps := w.Sub.HttpPeerStore(); ps != nil {
+				ps.Close()
+			}
+		})
+	}
+	w.CloseRest()
+}
+
 func reqWhat(ch *syncfx.Chain, rq *syncfx.Req) string {
 	if rq.Kind == "block" {
 		return fmt.Sprintf("block[%d]", ch.Index(rq.Cid))
